@@ -599,7 +599,8 @@ func jsonCase(e *Env, doc *JNode, forceLarge bool, cls string) {
 		sample = sample[:200]
 	}
 	obs["text"] = B(sample)
-	emitCase(e, M{"fn": "json", "cls": cls, "large": bin[0] == jbLargeObj || bin[0] == jbLargeArr, "forced": forceLarge, "doc": doc.J(), "binlen": len(bin), "obs": obs})
+	emitCase(e, M{"fn": "json", "cls": cls, "large": bin[0] == jbLargeObj || bin[0] == jbLargeArr, "forced": forceLarge, "doc": doc.J(), "binlen": len(bin),
+		"bin": B(bin), "obs": obs})
 }
 
 func modeC14(e *Env) {
